@@ -170,6 +170,8 @@ type Watch struct {
 	StallBudget time.Duration
 	// TotalBudget bounds the whole wait (then Inconclusive).
 	TotalBudget time.Duration
+	// LastDump is the goroutine dump on which the last Quiesce decided.
+	LastDump string
 }
 
 // Result of Wait.
@@ -265,8 +267,9 @@ func (w *Watch) Quiesce() bool {
 		for i := 0; i < 4; i++ {
 			runtime.Gosched()
 		}
-		gs, _ := Snapshot()
+		gs, dump := Snapshot()
 		if ok, _ := AllParked(gs); ok && w.Prog.Load() == before {
+			w.LastDump = dump
 			return true
 		}
 		if time.Since(start) > w.StallBudget {
